@@ -216,7 +216,7 @@ var S *Sim
 type killSentinel struct{}
 
 // Watchdog is the real-time limit for one scheduling step (a hang in real code is a harness error).
-var Watchdog = 20 * time.Second
+var Watchdog = 180 * time.Second
 
 // ---------------------------------------------------------------- running
 
